@@ -34,7 +34,8 @@ CHECK_DEADLOCK FALSE
         traces.append(tp)
         argvs.append([drv, "--script", sp, "--out", tp, "--scratch", os.path.join(ctx.scratch, "st%d" % k),
                       "--random", str(25 if quick else 200), "--len", str(14 if quick else 24), "--salt", str(k)]
-                     + (["--scripted"] if k == 0 else []))
+                     + (["--scripted"] if k in (0, 1) else [])
+                     + (["--p026"] if k % 2 == 1 else []))
     outs = ctx.run_parallel(argvs)
     blocks = sum(int(o.split("blocks=")[1].split()[0]) for o in outs)
     nh = sum(int(o.split("histories=")[1].split()[0]) for o in outs)
@@ -97,5 +98,5 @@ CHECK_DEADLOCK FALSE
         "one transaction per block; the per-block delta is judged exactly (big-number arithmetic in TLA+)",
         "the reward block 36000 adds to the escrow it pays out is taken to equal the reward of the equally empty block 35999",
         "wrapped Ethereum transactions (type 188) are driven at the executor level (nonce check, eviction), their signature recovery belongs to C07; operator-node (type 7) is not driven (needs the main-node contract)",
-        "dev fork schedule at heights < 10 with Proposal026 inactive",
+        "dev fork schedule; the node reads its fork flags from a process-global height (0 in the harness), so every fork with activation height 0 is active; Proposal026 (fee 0.001, gas x 30) cannot be active while the dev genesis is created: half of the driver processes switch it on after the boot (--p026)",
     ])
